@@ -48,10 +48,22 @@ def crop(n, m, lower, upper):
     return lower, upper
 
 
+def _sentinel(affine, gap, min_score):
+    """the 'negative infinity' sentinel exactly as align_banded computes it in the CURRENT source: the statements that
+    define neg_inf are cut out of the wrapper and evaluated over z3 integers / Python ints (vf/kx/wslice.py)"""
+    from vf.kx import wslice
+    v, text, line = wslice.evaluate("sequence/align/banded.pyx", "align_banded", "neg_inf", ["neg_inf", "min_score"],
+                                    dict(gap_penalty=gap, affine_penalty=bool(affine)), {"np.min(matrix.score_matrix())": min_score}, "neg_inf")
+    SENTINEL_SRC["text"], SENTINEL_SRC["line"] = text, line
+    return v
+
+
+SENTINEL_SRC = {}
+
+
 def neg_inf_value(gap, min_score):
     """as in align_banded: int32 minimum made 'more positive' by the gap penalty and the lowest matrix score"""
-    v = -(2 ** 31) - gap
-    return z3.If(min_score < 0, v - min_score, v)
+    return _sentinel(False, gap, min_score)
 
 
 def zmax(*xs):
@@ -71,10 +83,7 @@ def run_fill(n, m, lower, upper, c1, c2, M, g, local, concrete=False):
     for row in M:
         for e in row:
             mn = (min(mn, e) if concrete else z3.If(e < mn, e, mn))
-    if concrete:
-        ninf = -(2 ** 31) - g - (mn if mn < 0 else 0)
-    else:
-        ninf = neg_inf_value(g, mn)
+    ninf = neg_inf_value(g, mn)
     mk = (lambda v: CInt.const(int(v), I32)) if concrete else (lambda v: CInt(v, I32) if not isinstance(v, int) else CInt.const(v, I32))
     score = View([[mk(ninf) if j in (0, width + 1) else CInt.const(0, I32) for j in range(width + 2)] for _ in range(n + 1)], I32)
     trace = const_view([[0] * (width + 2) for _ in range(n + 1)], "uint8")
@@ -233,11 +242,7 @@ def validate():
 # ------------------------------------------------------------------------------------------ affine gap penalty
 def neg_inf_affine(go, ge, min_score, concrete=False):
     """align_banded: neg_inf = INT32_MIN - min(gap_open, gap_ext) - (min_score if min_score < 0)"""
-    if concrete:
-        v = -(2 ** 31) - min(go, ge)
-        return v - min_score if min_score < 0 else v
-    v = -(2 ** 31) - z3.If(go < ge, go, ge)
-    return z3.If(min_score < 0, v - min_score, v)
+    return _sentinel(True, (go, ge), min_score)
 
 
 def run_fill_affine(n, m, lower, upper, c1, c2, M, go, ge, local, concrete=False):
@@ -364,4 +369,4 @@ def ob_banded_fill_affine(tier):
                                   known=[("C09-banded-affine-overflow", z3.BoolVal(False),
                                           dict(n=2, m=2, lower=-1, upper=0, local=False, code1=[0, 0], code2=[0, 0], matrix=[[3, -2], [1, -1]], go=-4, ge=-4),
                                           "align_banded with an affine penalty: the int32 'negative infinity' sentinel wraps around (scores near 2^31)")]))
-    return cases, dict(functions=k.functions_info(), note="table layout / initialisation of align_banded (affine) transcribed")
+    return cases, dict(functions=k.functions_info(), note="table layout of align_banded (affine) transcribed; its sentinel formula is cut out of the current wrapper source (vf/kx/wslice.py)")
